@@ -36,12 +36,12 @@ NewObj(kind) == [kind |-> kind, hdrs |-> NoHdrs, cks |-> NoHdrs, auth |-> FALSE,
 
 VARIABLES objs,      \* sequence of client objects
           hist,      \* the history (observation only)
-          sent       \* the outcome of the last Call: <<"none">> | [res, hdrs, cks, auth, time]
+          sent       \* the outcome of the last Call: [res, hdrs, cks, auth, time, arg]; arg: the cookie ARGUMENT of that call ("-" = not passed)
 vars == <<objs, hist, sent>>
-Init == objs = <<>> /\ hist = <<>> /\ sent = [res |-> "none", hdrs |-> NoHdrs, cks |-> NoHdrs, auth |-> FALSE, time |-> "t0"]
+Init == objs = <<>> /\ hist = <<>> /\ sent = [res |-> "none", hdrs |-> NoHdrs, cks |-> NoHdrs, auth |-> FALSE, time |-> "t0", arg |-> "-"]
 
 Rec(ev) == hist' = Append(hist, ev)
-Quiet == sent' = [res |-> "none", hdrs |-> NoHdrs, cks |-> NoHdrs, auth |-> FALSE, time |-> "t0"]
+Quiet == sent' = [res |-> "none", hdrs |-> NoHdrs, cks |-> NoHdrs, auth |-> FALSE, time |-> "t0", arg |-> "-"]
 Create(kind) == /\ Len(objs) < MaxObjs /\ objs' = Append(objs, NewObj(kind)) /\ Rec([op |-> "create", kind |-> kind]) /\ Quiet
 
 \* ---- get_httpx_client: lazily build the live client from the settings (writing the credential into the settings first)
@@ -88,18 +88,20 @@ SetUser(i, m) == /\ objs' = [objs EXCEPT ![i].live[m] = [NoLive EXCEPT !.exists 
                  /\ Rec([op |-> "set_user", i |-> i, m |-> m]) /\ Quiet
 
 \* ---- a request through an endpoint function: client.get_httpx_client().request(**kwargs)
-Call(i, m) == /\ LET o == Built(objs[i], m) l == o.live[m] IN
-                 /\ objs' = [objs EXCEPT ![i] = IF l.st = "closed" THEN o ELSE [o EXCEPT !.live[m].st = "open"]]     \* httpx: the first request opens the client
-                 /\ sent' = IF l.st = "closed" THEN [res |-> "raised", hdrs |-> NoHdrs, cks |-> NoHdrs, auth |-> FALSE, time |-> "t0"]
-                            ELSE [res |-> "sent", hdrs |-> l.hdrs, cks |-> l.cks, auth |-> l.auth, time |-> l.time]
-              /\ Rec([op |-> "call", i |-> i, m |-> m])
+\* `a` is the value passed for the operation's optional cookie parameter ("-" = omitted): it travels with THIS request only
+Call(i, m, a) ==
+  /\ LET o == Built(objs[i], m) l == o.live[m] IN
+       /\ objs' = [objs EXCEPT ![i] = IF l.st = "closed" THEN o ELSE [o EXCEPT !.live[m].st = "open"]]     \* httpx: the first request opens the client
+       /\ sent' = IF l.st = "closed" THEN [res |-> "raised", hdrs |-> NoHdrs, cks |-> NoHdrs, auth |-> FALSE, time |-> "t0", arg |-> "-"]
+                  ELSE [res |-> "sent", hdrs |-> l.hdrs, cks |-> l.cks, auth |-> l.auth, time |-> l.time, arg |-> a]
+  /\ Rec([op |-> "call", i |-> i, m |-> m, a |-> a])
 
 Next == /\ Len(hist) < MaxOps
         /\ \/ \E k \in {"plain", "auth"} : Create(k)
            \/ \E i \in 1..Len(objs) :
                 \/ \E n \in Names, v \in Vals : WithHeaders(i, n, v) \/ WithCookies(i, n, v)
                 \/ \E t \in Times : WithTimeout(i, t)
-                \/ \E m \in Modes : Get(i, m) \/ Enter(i, m) \/ Exit(i, m) \/ SetUser(i, m) \/ Call(i, m)
+                \/ \E m \in Modes : Get(i, m) \/ Enter(i, m) \/ Exit(i, m) \/ SetUser(i, m) \/ (\E a \in {"-", "a1"} : Call(i, m, a))
 Spec == Init /\ [][Next]_vars
 
 \* ------------------------------------------------------------------ laws (about the last Call)
@@ -116,6 +118,8 @@ CL2 == (LastCall /\ sent.res = "sent" /\ ~Live.user) =>
           /\ (Obj.time # "t0" => sent.time = Obj.time)
 \* CL3: an AuthenticatedClient that builds its own httpx client always sends the credential
 CL3 == (LastCall /\ sent.res = "sent" /\ ~Live.user) => (sent.auth <=> Obj.kind = "auth")
+\* CL5: an argument of a call travels with that call only (nothing of an earlier call's arguments is on a later request)
+CL5 == (LastCall /\ sent.res = "sent") => sent.arg = hist[Len(hist)].a
 \* CL4: a plain Client never sends a credential
 CL4 == (LastCall /\ sent.res = "sent" /\ Obj.kind = "plain") => ~sent.auth
 =============================================================================
